@@ -28,7 +28,9 @@ def drive(cmd, label, args, race=False, timeout=3000, extra_env=None):
     st = json.load(open(stats)) if os.path.exists(stats) else {}
     return tr, st, p
 
-def judge(label, module, cfg, trace, env=None, timeout=3000, expect_events=None, heap="6g", workers=1, shards=1):
+STATEFUL = {"TraceConcurrent", "TraceXmssKey"}
+
+def judge(label, module, cfg, trace, env=None, timeout=3000, expect_events=None, heap="6g", workers=1, shards=1, _inner=False):
     """Validate a trace with a TraceKit-based spec. shards > 1: the events are judged one at a time
     (no state is carried between them), so the trace is cut into contiguous chunks validated by
     parallel TLC processes and the verdicts are merged (line numbers are mapped back)."""
@@ -50,7 +52,7 @@ def judge(label, module, cfg, trace, env=None, timeout=3000, expect_events=None,
                 parts.append((i * size, pth, len(chunk)))
             def one(part):
                 off, pth, ln = part
-                return off, judge("%s-s%d" % (label, off), module, cfg, pth, env=env, timeout=timeout, expect_events=ln, heap="3g", workers=1)
+                return off, judge("%s-s%d" % (label, off), module, cfg, pth, env=env, timeout=timeout, expect_events=ln, heap="3g", workers=1, _inner=True)
             with ThreadPoolExecutor(max_workers=min(len(parts), NCPU)) as ex:
                 rs = list(ex.map(one, parts))
             v = {"consumed": 0, "len": 0, "viols": [], "nviol": 0, "drift": [], "counts": {}, "tlc_states": 0, "tlc_generated": 0, "tlc_wall": 0.0}
@@ -65,6 +67,8 @@ def judge(label, module, cfg, trace, env=None, timeout=3000, expect_events=None,
                 raise Infra("trace %s not fully consumed: %s of %s" % (label, v["len"], expect_events))
             v.update(label=label, trace=trace)
             log("[judge] %s: %d events in %d shards, %d violations, %d drift notes (%.1fs TLC)" % (label, v["len"], len(parts), v["nviol"], len(v["drift"]), v["tlc_wall"]))
+            if not v["nviol"] and "selftest" not in label:
+                selftest(label, module, cfg, trace, env=env, heap="3g", stateless=module not in STATEFUL)
             return v
     res = os.path.join(scratch(), "%s.result.json" % label)
     e = {"VERIF_TRACE": trace, "VERIF_RESULT": res}
@@ -80,6 +84,8 @@ def judge(label, module, cfg, trace, env=None, timeout=3000, expect_events=None,
         raise Infra("trace %s not fully consumed: %s of %s (driver wrote %s)" % (label, v["consumed"], v["len"], expect_events))
     v.update(label=label, trace=trace, tlc_states=r.distinct, tlc_generated=r.generated, tlc_wall=round(r.wall, 1))
     log("[judge] %s: %d events, %d violations, %d drift notes (%.1fs TLC)" % (label, v["len"], v["nviol"], len(v.get("drift", [])), r.wall))
+    if not _inner and not v["nviol"] and "selftest" not in label:
+        selftest(label, module, cfg, trace, env=env, heap=heap, stateless=module not in STATEFUL)
     return v
 
 def strip_event(e, maxlen=24):
@@ -153,6 +159,7 @@ def finish(pid, tier, t0, design, verdicts, known=None, extra_cov=None, assumpti
     if extra_cov:
         cov.update(extra_cov)
     write_evidence(pid, tier, "model_checking", cov, time.time() - t0, len(fresh) + (unrecorded if fresh else 0), assumptions)
+    selftest_write(pid)
     for key in sorted(seen_known):
         print("KNOWN-FINDING: property=%s %s" % (pid, seen_known[key]))
     if fresh:
@@ -227,22 +234,20 @@ def _set(e, path, val):
         e = e[p]
     e[path[-1]] = val
 
-def corrupt_line(line, rng, descriptive=()):
-    """one type-preserving change of one recorded value; returns (new line, event kind, field, old, new) or None"""
+def corrupt_line(line, rng, field):
+    """one type-preserving change of one recorded value below the top-level field; returns (new line, kind, field, old, new) or None"""
     e = json.loads(line)
-    keys = [k for k in e if k not in ("ev",) and k not in descriptive]
-    rng.shuffle(keys)
-    for k in keys:
-        lv = list(_leaves(e[k], (k,)))
-        if not lv:
-            continue
-        path, old = lv[rng.randrange(len(lv))]
-        new = _mutate(old, len(path) > 1, rng)
-        if new is None or new == old:
-            continue
-        _set(e, path, new)
-        return json.dumps(e, separators=(",", ":")), e.get("ev", "?"), k, old, new
-    return None
+    if field not in e:
+        return None
+    lv = list(_leaves(e[field], (field,)))
+    if not lv:
+        return None
+    path, old = lv[rng.randrange(len(lv))]
+    new = _mutate(old, len(path) > 1, rng)
+    if new is None or new == old:
+        return None
+    _set(e, path, new)
+    return json.dumps(e, separators=(",", ":")), e.get("ev", "?"), field, old, new
 
 def selftest_descriptive():
     """fields that describe an event for the reader and are not judged: module -> set of field names"""
@@ -256,7 +261,7 @@ def selftest_descriptive():
                 out.setdefault(mod.strip(), set()).update(fields.split())
     return out
 
-def selftest(label, module, cfg, trace, env=None, heap="6g", stateless=True, n=None, judge_fn=None):
+def selftest(label, module, cfg, trace, env=None, heap="6g", stateless=True, n=None, judge_fn=None, batch=25, max_trials=None):
     import random
     n = n or int(os.environ.get("VERIF_SELFTEST", "0"))
     if n <= 0:
@@ -265,44 +270,71 @@ def selftest(label, module, cfg, trace, env=None, heap="6g", stateless=True, n=N
     lines = open(trace).read().splitlines()
     desc = selftest_descriptive().get(module, set())
     trials = []
-    # spread the trials over the event kinds, not over the lines (a trace is mostly one kind)
+    # the fields the specification reads are the e.<name> that occur in its text; everything else a driver
+    # records is descriptive.  n trials per (event kind, referenced field), on lines where the field holds
+    # something (a zero / empty value usually means "not used by this kind of event")
+    import re as _re
+    spec_txt = open(os.path.join(SPEC, module + ".tla")).read()
+    referenced = set(_re.findall(r"\b(?:e|Ev|ev|it)\.([A-Za-z_][A-Za-z0-9_]*)", spec_txt))
     by_kind = {}
     for i, l in enumerate(lines):
         m = l.find('"ev":"')
         k = l[m + 6:l.find('"', m + 6)] if m >= 0 else "?"
         by_kind.setdefault(k, []).append(i)
-    kinds = sorted(by_kind)
-    t = 0
-    while len(trials) < n and t < 5 * n:
-        k = kinds[t % len(kinds)]
-        t += 1
-        li = rng.choice(by_kind[k])
-        c = corrupt_line(lines[li], rng, desc)
-        if c:
-            trials.append((li,) + c)
+    unreferenced = set()
+    for k in sorted(by_kind):
+        sample = [json.loads(lines[li]) for li in rng.sample(by_kind[k], min(40, len(by_kind[k])))]
+        fields = set()
+        for e_ in sample:
+            fields |= set(e_.keys())
+        unreferenced |= {f for f in fields if f not in referenced and f != "ev"}
+        for f in sorted((fields & referenced) - {"ev"} - desc):
+            cand = [li for li in by_kind[k] if ('"%s":' % f) in lines[li]]
+            rng.shuffle(cand)
+            got = 0
+            for li in cand[:200]:
+                v_ = json.loads(lines[li]).get(f)
+                if v_ in (0, "", [], None, False) and got < n - 1:
+                    continue
+                c = corrupt_line(lines[li], rng, f)
+                if c:
+                    trials.append((li,) + c)
+                    got += 1
+                if got >= n:
+                    break
+    if stateless is False and len(trials) > 60:
+        trials = rng.sample(trials, 60)
+    if max_trials and len(trials) > max_trials:
+        trials = rng.sample(trials, max_trials)
     jf = judge_fn or (lambda lab, tr, exp: judge(lab, module, cfg, tr, env=env, expect_events=exp, heap=heap))
     results = []
     if stateless:
-        for b in range(0, len(trials), 25):
-            batch = trials[b:b + 25]
+        from concurrent.futures import ThreadPoolExecutor
+        def do_batch(b):
+            out = []
+            bt = trials[b:b + batch]
             pth = "%s.selftest%d" % (trace, b)
             with open(pth, "w") as f:
-                for tr_ in batch:
+                for tr_ in bt:
                     f.write(tr_[1] + "\n")
             try:
-                v = jf("%s-selftest%d" % (label, b), pth, len(batch))
+                v = jf("%s-selftest%d" % (label, b), pth, len(bt))
                 hit = {x["l"] for x in v["viols"]} | {x["l"] for x in v.get("drift", []) if isinstance(x, dict)}
-                for i, tr_ in enumerate(batch):
-                    results.append((tr_, (i + 1) in hit, ""))
+                for i, tr_ in enumerate(bt):
+                    out.append((tr_, (i + 1) in hit, ""))
             except Infra as ex:   # an evaluation error on a corrupted value: judged one by one
-                for i, tr_ in enumerate(batch):
+                for i, tr_ in enumerate(bt):
                     p1 = "%s.%d" % (pth, i)
                     open(p1, "w").write(tr_[1] + "\n")
                     try:
                         v = jf("%s-selftest%d-%d" % (label, b, i), p1, 1)
-                        results.append((tr_, v["nviol"] > 0 or bool(v.get("drift")), ""))
+                        out.append((tr_, v["nviol"] > 0 or bool(v.get("drift")), ""))
                     except Infra as ex1:
-                        results.append((tr_, True, "rejected by an evaluation error (shape of the value)"))
+                        out.append((tr_, True, "rejected by an evaluation error (shape of the value)"))
+            return out
+        with ThreadPoolExecutor(max_workers=max(2, NCPU // 3)) as ex:
+            for o in ex.map(do_batch, range(0, len(trials), batch)):
+                results += o
     else:
         from concurrent.futures import ThreadPoolExecutor
         def one(i_tr):
@@ -329,9 +361,10 @@ def selftest(label, module, cfg, trace, env=None, heap="6g", stateless=True, n=N
     rej = sum(1 for r in results if r[1])
     log("[selftest] %s (%s): %d of %d single-value corruptions rejected" % (label, module, rej, len(results)))
     for k, t_ in sorted(table.items()):
-        if t_["rejected"] < t_["trials"]:
-            log("[selftest]   NOT BOUND %s: %d of %d accepted, e.g. %s" % (k, t_["trials"] - t_["rejected"], t_["trials"], t_["missed_examples"][:1]))
-    SELFTEST.append({"label": label, "module": module, "trials": len(results), "rejected": rej, "fields": table})
+        if t_["rejected"] == 0:
+            log("[selftest]   NEVER REJECTED %s (%d trials), e.g. %s" % (k, t_["trials"], t_["missed_examples"][:1]))
+    SELFTEST.append({"label": label, "module": module, "trials": len(results), "rejected": rej, "fields": table,
+                     "fields_the_specification_does_not_read": sorted(unreferenced)})
 
 def selftest_write(pid):
     if not SELFTEST:
